@@ -1,32 +1,26 @@
-//! Ad-hoc inspection of one case file: library routes vs reference.
+//! Ad-hoc: one with-faces cell: faces, polygons, areas.
+use meshless_voronoi::integrals::AreaIntegral;
 use mvv::case::Case;
 use mvv::obs;
-use mvv::refmodel::{ref_cell, RefOpts};
-use meshless_voronoi::integrals::VolumeIntegral;
 fn main() {
     let args: Vec<String> = std::env::args().collect();
     let c = Case::load(&args[1]).unwrap();
-    println!("dim {} periodic {} anchor {:?} width {:?} n {}", c.dim, c.periodic, c.anchor, c.width, c.n());
-    let v = obs::build_full(&c);
-    let vi = obs::integrator(&c, None);
-    let a = vi.compute_cell_integrals::<VolumeIntegral>();
-    let b = if c.dim == 3 { Some(vi.clone().with_faces().compute_cell_integrals::<VolumeIntegral>()) } else { None };
-    for i in 0..c.n() {
-        let r = ref_cell(&c, i, &RefOpts::default());
-        let cell = vi.get_cell_at(i).unwrap();
-        let k = obs::vertex_kappa(cell).into_iter().fold(1., f64::max);
-        println!(
-            "cell {i} g={:?}\n   ref V={:e} S={:e} | build {:e} | integ {:e} | faces {:?} | nverts {} kappa {:e} sr {:e}",
-            c.gens[i], r.volume, r.surface, v.cells()[i].volume(), a[i].volume, b.as_ref().map(|b| b[i].volume), cell.vertices.len(), k,
-            v.cells()[i].safety_radius()
-        );
-        if args.len() > 2 {
-            for vx in &cell.vertices {
-                println!("      v {:?} dual {:?}", vx.loc, vx.dual);
-            }
-            for (pi, p) in cell.clipping_planes.iter().enumerate() {
-                println!("      plane {pi} n {:?} p {:?} right {:?} shift {:?}", p.plane.n, p.plane.p, p.right_idx, p.shift);
-            }
+    let i: usize = args[2].parse().unwrap();
+    println!("dim {} periodic {} anchor {:?} width {:?} n {} fam {}", c.dim, c.periodic, c.anchor, c.width, c.n(), c.family);
+    let vi = obs::integrator(&c, c.mask.as_deref());
+    let plain = vi.get_cell_at(i).unwrap().clone();
+    let kap = obs::vertex_kappa(&plain);
+    let cell = plain.clone().with_faces();
+    let ints = cell.compute_face_integrals::<(), AreaIntegral>(());
+    let pints = plain.compute_face_integrals::<(), AreaIntegral>(());
+    println!("gen {:?}; {} vertices, kappa max {:e}", cell.loc, cell.vertices.len(), kap.iter().cloned().fold(1., f64::max));
+    for f in 0..cell.face_count() {
+        let vs = cell.face_vertices(f);
+        let pl = cell.clipping_plane(f);
+        println!("face {f}: neighbour {:?} shift {:?} n {:?}; area(with faces) {:e} area(plain) {:e}", cell.neighbour(f), cell.shift(f), pl.n, ints[f].integral().area, pints.get(f).map_or(f64::NAN, |x| x.integral().area));
+        for &v in vs {
+            let vx = &cell.vertices[v];
+            println!("    v{v} dual {:?} kappa {:e} loc {:?} off-plane {:e}", vx.dual, kap[v], vx.loc, pl.n.dot(vx.loc - pl.p));
         }
     }
 }
